@@ -51,10 +51,15 @@ class Sandbox:
     The absolute path has a fixed length for every worker so that byte counts in the event
     log do not depend on which worker executed the run."""
 
-    def __init__(self, tag):
+    @classmethod
+    def at(cls, top):
+        return cls(None, top=top)
+
+    def __init__(self, tag, top=None):
         base = os.path.join(scratch_base(), "occaverif")
-        self.top = os.path.join(base, "%-24s" % tag).replace(" ", "_")[: len(base) + 25]
-        shutil.rmtree(self.top, ignore_errors=True)
+        self.top = top or os.path.join(base, "%-24s" % tag).replace(" ", "_")[: len(base) + 25]
+        for d in ("r", "o"):
+            shutil.rmtree(os.path.join(self.top, d), ignore_errors=True)
         self.R = os.path.join(self.top, "r")
         self.cache = os.path.join(self.R, "cache")
         self.proj = os.path.join(self.R, "proj")
